@@ -1,11 +1,18 @@
 package s0370
 
+type G2 struct {
+	F0x0x0 *int32
+}
+
+type G3 struct {
+	F0x1x0 int64
+}
+
 type G1 struct {
-	F1x0 []int64
+	F0x0 []G2
+	F0x1 *G3
 }
 
 type T struct {
-	F0 *int32
-	F1 []G1
-	F2 *uint32
+	F0 *G1
 }
